@@ -918,27 +918,204 @@ def k_gen(L, c, R):
         if scheme == 'stb99':
             code = L.err('stb99ParamsGen', out, A.buf(pack_seed(scheme, S)))
         else:
-            code = L.err('pfokParamsGen', out, A.buf(pack_seed(scheme, S)), None)
+            qtrace = []
+            def on_q(qp, n, num):
+                qtrace.append((int.from_bytes(_ct.string_at(qp, n * L.wbytes), 'little'), num))
+            cb = _ct.CFUNCTYPE(None, _ct.c_void_p, _ct.c_size_t, _ct.c_size_t)(on_q)
+            code = L.err('pfokParamsGen', out, A.buf(pack_seed(scheme, S)), cb if c.get('on_q') else None)
         R.extra['gen_s'] = round(time.time() - t0, 2)
         got = unpack(scheme, out.get())
         vcode = L.err(VALFN[scheme], out)
-    exp = R_.params_gen(S)
+    if scheme == 'pfok':
+        etrace = []
+        exp = R_.params_gen(S, on_q=lambda q, num: etrace.append((q, num)))
+        etrace.append((etrace[-1][0], 0))        # pfok.c announces the accepted q once more with num = 0
+        if c.get('on_q') and qtrace != etrace:
+            R.bad('pfokParamsGen:on_q-trace', dict(c), 'pfokParamsGen(seed of %s): on_q saw %d candidates %s.., the reference chain has %d: %s..' % (
+                name, len(qtrace), [hex(q)[:20] + '/%d' % n for q, n in qtrace[:3]], len(etrace), [hex(q)[:20] + '/%d' % n for q, n in etrace[:3]]))
+    else:
+        exp = R_.params_gen(S)
     R.n += 2
     keys = [k for k in got if k != 'n']          # pfok: n is not produced by the generator's algorithm
     if code != ERR_OK or any(got[k] != exp[k] for k in keys):
         R.bad('%sParamsGen:differs' % scheme, dict(c), '%sParamsGen(seed of %s) = %d; fields differing from the reference generator: %s' % (
             scheme, name, code, [k for k in keys if got[k] != exp[k]]))
     std = R_.params_std(name)
-    if any(exp[k] != std[k] for k in keys):
+    # pfok: the standard sets list some generator g, not the least one the documented procedure (g = 1, 2, ...) returns
+    if any(exp[k] != std[k] for k in keys if not (scheme == 'pfok' and k == 'g')):
         raise AssertionError('reference generator does not reproduce the standard set ' + name)
     if code == ERR_OK and vcode != ERR_OK:
         R.bad('%s:generated-set-rejected' % VALFN[scheme], dict(c), '%s(generated %s) = %d' % (VALFN[scheme], name, vcode))
+
+
+# ================================================================== generators driven by caller callbacks (bignParamsGen, pfokParamsGen on_q)
+import ctypes as _ct
+ERR_NO_RESULT = 118
+CB_CAP = 1234          # code returned by the scripted on_seed() when the call budget is used up
+
+def bigngen_model(D, calc_script, seed_script, cap):
+    """STB 34.101.45 alg. 6.1.3 as bign.h documents bignParamsGen: -> (code, final dict | None, trace)"""
+    l, p, a = D['l'], D['p'], D['a']
+    seed = D['seed']; trace = []; nq = 0; ns = 0
+    std = ecp.params_by_level(l)
+    while True:
+        ns += 1
+        trace.append('seed:%016x' % seed)
+        if ns > cap:
+            return CB_CAP, None, trace
+        if ns <= len(seed_script) and seed_script[ns - 1]:
+            return seed_script[ns - 1], None, trace
+        b = ecp.seed_b({'l': l, 'p': p, 'a': a, 'seed': seed.to_bytes(8, 'little')}, belt.hash)
+        cur = seed
+        seed = (seed + 1) % (1 << 64)
+        if (4 * a ** 3 + 27 * b * b) % p == 0 or ecp.jacobi(b, p) != 1:
+            continue
+        nq += 1
+        trace.append('calc_q:b=%x' % b)
+        act = calc_script[nq - 1] if nq <= len(calc_script) else 'std'
+        if act == 'std':
+            act = ('q:%x' % std['q']) if (p, a, b) == (std['p'], std['a'], std['b']) else 'noresult'
+        if act == 'noresult':
+            continue
+        if act.startswith('err:'):
+            return int(act[4:]), None, trace
+        q = int(act[2:], 16)
+        if q.bit_length() == 2 * l and q != p and pri.is_prime(q) and all(pow(p, m, q) != 1 for m in range(1, 51)):
+            return ERR_OK, {'l': l, 'p': p, 'a': a, 'b': b, 'q': q, 'yG': pow(b, (p + 1) // 4, p), 'seed': cur}, trace
+
+def k_bigngen(L, c, R):
+    D = {k: int(v) for k, v in c['D'].items()}
+    calc_script, seed_script, cap = c['calc'], c['seeds'], c['cap']
+    std = ecp.params_by_level(D['l']) if D['l'] in (128, 192, 256) else None
+    trace = []; state = {'nq': 0, 'ns': 0}
+    size = LAY['bign'][0]
+    def rd(ptr):
+        return unpack('bign', _ct.string_at(ptr, size))
+    def on_seed(ptr, st):
+        state['ns'] += 1
+        trace.append('seed:%016x' % rd(ptr)['seed'])
+        if state['ns'] > cap:
+            return CB_CAP
+        if state['ns'] <= len(seed_script) and seed_script[state['ns'] - 1]:
+            return seed_script[state['ns'] - 1]
+        return 0
+    def calc_q(ptr, st):
+        P = rd(ptr)
+        state['nq'] += 1
+        trace.append('calc_q:b=%x' % P['b'])
+        act = calc_script[state['nq'] - 1] if state['nq'] <= len(calc_script) else 'std'
+        if act == 'std':
+            act = ('q:%x' % std['q']) if std and (P['p'], P['a'], P['b']) == (std['p'], std['a'], std['b']) else 'noresult'
+        if act == 'noresult':
+            return ERR_NO_RESULT
+        if act.startswith('err:'):
+            return int(act[4:])
+        q = int(act[2:], 16)
+        _ct.memmove(ptr + 200, q.to_bytes(64, 'little'), 64)
+        return 0
+    CB = _ct.CFUNCTYPE(_ct.c_uint32, _ct.c_void_p, _ct.c_void_p)
+    cq, os_ = CB(calc_q), CB(on_seed)
+    blob = pack('bign', D)
+    with vf.Arena(L) as A:
+        pb = A.buf(blob)
+        code = L.err('bignParamsGen', pb, None if c.get('null_calc') else cq, None if c.get('null_on_seed') else os_, 0)
+        got = unpack('bign', pb.get()); raw = pb.get()
+        vcode = L.err('bignParamsVal', pb) if code == ERR_OK else None
+    R.n += 1
+    exp = c.get('expect_code')
+    if exp is not None:                  # argument errors documented in bign.h
+        R.outc('bignParamsGen argument error %d' % code)
+        if code != exp:
+            R.bad('bignParamsGen:argument:%s' % c['label'], dict(c), 'bignParamsGen(%s) = %d, bign.h: %d' % (c['label'], code, exp))
+        return
+    ecode, efin, etrace = bigngen_model(D, calc_script, seed_script, cap)
+    if c.get('null_on_seed'):
+        etrace = [t for t in etrace if not t.startswith('seed:')]
+    R.outc('bignParamsGen code %d after %d seeds' % (ecode, sum(t.startswith('seed:') for t in etrace)))
+    if trace != etrace:
+        k = next((i for i, (x, y) in enumerate(zip(trace, etrace)) if x != y), min(len(trace), len(etrace)))
+        R.bad('bignParamsGen:callback-trace:%s' % c['label'], dict(c), 'bignParamsGen(%s): callbacks diverge from alg. 6.1.3 at call %d: got %s, expected %s (lengths %d / %d)' % (
+            c['label'], k, trace[k:k + 2], etrace[k:k + 2], len(trace), len(etrace)))
+    elif code != ecode:
+        R.bad('bignParamsGen:code:%s' % c['label'], dict(c), 'bignParamsGen(%s) = %d, expected %d' % (c['label'], code, ecode))
+    elif code == ERR_OK:
+        diff = [k for k in efin if got[k] != efin[k]]
+        if diff:
+            R.bad('bignParamsGen:result:%s' % c['label'], dict(c), 'bignParamsGen(%s): fields %s differ from alg. 6.1.3 (e.g. %s: %x / %x)' % (c['label'], diff, diff[0], got[diff[0]], efin[diff[0]]))
+        elif vcode != ERR_OK:
+            R.bad('bignParamsVal:generated-set-rejected', dict(c), 'bignParamsVal(generated set, %s) = %d' % (c['label'], vcode))
+        no = D['l'] // 4
+        for f, off, n in LAY['bign'][1]:
+            if f in ('b', 'q', 'yG') and any(raw[off + no:off + n]):
+                R.bad('bignParamsGen:padding', dict(c), 'bignParamsGen(%s): unused octets of %s are not zero' % (c['label'], f))
+
+def bigngen_cases(l, quick):
+    std = ecp.params_by_level(l)
+    s0 = int.from_bytes(bytes(std['seed']), 'little')
+    base = {'l': l, 'p': std['p'], 'a': std['a'], 'b': 0, 'q': 0, 'yG': 0}
+    def D(seed, **kw):
+        d = dict(base, seed=seed % (1 << 64)); d.update(kw); return {k: str(v) for k, v in d.items()}
+    out = []
+    def add(label, Dd, calc=(), seeds=(), cap=40, **kw):
+        out.append(dict(kind='bigngen', label='l=%d %s' % (l, label), D=Dd, calc=list(calc), seeds=list(seeds), cap=cap, **kw))
+    for k in range(0, 4 if quick else 12):
+        add('from seed - %d' % k, D(s0 - k))
+    add('from seed, no on_seed', D(s0), null_on_seed=1)
+    # the first seed before the standard one whose b passes the discriminant / residue filter: calc_q answers a bad q there
+    k = 1
+    while True:
+        b = ecp.seed_b({'l': l, 'p': std['p'], 'a': std['a'], 'seed': ((s0 - k) % (1 << 64)).to_bytes(8, 'little')}, belt.hash)
+        if (4 * std['a'] ** 3 + 27 * b * b) % std['p'] and ecp.jacobi(b, std['p']) == 1:
+            break
+        k += 1
+    p = std['p']
+    comp = (1 << (2 * l - 1)) + 15
+    while pri.is_prime(comp): comp += 2
+    short = pri.next_prime(1 << (2 * l - 2))
+    for lab, act in (('q = p', 'q:%x' % p), ('q composite', 'q:%x' % comp), ('q one bit short', 'q:%x' % short), ('q = 0', 'q:0'), ('q = 2^2l - 1', 'q:%x' % ((1 << (2 * l)) - 1)),
+                     ('no result', 'noresult')):
+        add('bad answer at seed - %d: %s' % (k, lab), D(s0 - k), calc=[act])
+    add('calc_q fails at seed - %d' % k, D(s0 - k), calc=['err:777'])
+    add('calc_q fails at the 2nd call', D(s0 - k), calc=['noresult', 'err:778'])
+    add('bad q at the standard seed, then budget', D(s0), calc=['q:%x' % comp], cap=6)
+    add('on_seed fails at call 1', D(s0 - 1), seeds=[901])
+    add('on_seed fails at call 3', D(s0 - 3), seeds=[0, 0, 903])
+    add('seed wraps 2^64', D((1 << 64) - 2), cap=4)
+    # argument errors (bign.h: ERR_BAD_INPUT for calc_q == 0; the set itself: ERR_BAD_PARAMS)
+    add('calc_q = NULL', D(s0), null_calc=1, expect_code=BAD_INPUT)
+    for lab, kw in (('l = 100', dict(l=100)), ('p = 1 mod 4', dict(p=p - 2)), ('p top bit clear', dict(p=p >> 1 | 3)), ('a = 0', dict(a=0)), ('a = p', dict(a=p)),
+                    ('a > p', dict(a=p + 1)), ('p composite', dict(p=p + 4 if not pri.is_prime(p + 4) else p + 8)), ('p padded', dict(p=p + (1 << (2 * l)))), ('a padded', dict(a=std['a'] + (1 << (2 * l))))):
+        Dd = D(s0, **kw)
+        if pack('bign', {k: int(v) for k, v in Dd.items()}) is not None:
+            add(lab, Dd, expect_code=BAD_PARAMS)
+    return out
+
+def k_sgprime(L, c, R):
+    """priIsSGPrime(q) for odd primes q: TRUE iff 2q + 1 is prime (pri.h: deterministic test)"""
+    W = wbits(L)
+    with vf.Arena(L) as A:
+        for v in c['vals']:
+            q = int(v); n = c.get('n') or nwords(L, q.bit_length())
+            st = stack(A, L.sz('priIsSGPrime_deep', n))
+            got = L.boolean('priIsSGPrime', A.words(q, n), n, st)
+            exp = int(pri.is_prime(2 * q + 1))
+            R.n += 1; R.outc('Sophie Germain prime' if exp else 'prime q with composite 2q + 1')
+            if got != exp:
+                R.bad('priIsSGPrime:%s' % ('composite-accepted' if got else 'safe-prime-rejected'), dict(c, vals=[str(q)]),
+                      'priIsSGPrime([%d words] %d) = %d [%s], 2q + 1 is %s' % (n, q, got, L.cfg, 'prime' if exp else 'composite'))
+            st.free()
+
+def k_sgrange(L, c, R):
+    prepare_sieve(1 << 17)
+    vals = [str(q) for q in range(max(3, c['start'] | 1), c['start'] + c['count'], 2) if ref_prime(q)]
+    k_sgprime(L, dict(c, vals=vals), R)
 
 # ================================================================== dispatcher
 KINDS = {'date2_all': k_date2_all, 'date2': k_date2, 'date_range': k_date_range, 'isprimew': k_isprimew, 'nextprimew': k_nextprimew,
          'nextprime': k_nextprime, 'sieved': k_sieved, 'smooth': k_sieved, 'primeval': k_primeval, 'isprime_range': k_isprime_range, 'carm': k_carm,
          'irred': k_irred, 'irred_big': k_irred_big, 'bels_std': k_bels_std, 'std': k_std, 'params': k_params, 'bignkey': k_bignkey,
-         'dstupoint': k_dstupoint, 'pfokkey': k_pfokkey, 'pqfam': k_pqfam, 'seed': k_seed, 'gen': k_gen, 'batch': k_batch}
+         'dstupoint': k_dstupoint, 'pfokkey': k_pfokkey, 'pqfam': k_pqfam, 'seed': k_seed, 'gen': k_gen, 'batch': k_batch,
+         'bigngen': k_bigngen, 'sgprime': k_sgprime, 'sgrange': k_sgrange}
 
 def run_case(c):
     L = common.lib(c['cfg'])
@@ -1053,6 +1230,17 @@ def prime_jobs(tier, cfg):
     for p1 in pri.small_primes(int(round(limit ** (1 / 3))) + 2)[1:]:
         if p1 ** 3 < limit:
             add('carmichael', kind='carm', p1=p1, limit=limit)
+    # priIsSGPrime: every odd prime below a bound, windows where 2q + 1 gains a word, the safe primes of the pfok sets
+    for s, n in chunks(0, 1 << (16 if q else 20), 1 << 13):
+        add('priIsSGPrime', kind='sgrange', start=s, count=n)
+    for c0 in (1 << 15, 1 << 16, 1 << 31, 1 << 32, 1 << 63, 1 << 64, 1 << 127, 1 << 128):
+        hw = 1 << (9 if q else 12)
+        add('priIsSGPrime', kind='sgrange', start=c0 - hw, count=2 * hw)
+    sg = [str((RP.params_std(nm)['p'] - 1) // 2) for nm in RP.STD_NAMES]
+    add('priIsSGPrime', kind='sgprime', vals=sg)
+    add('priIsSGPrime', kind='sgprime', vals=[str(v) for v in std_primes() if v % 2 and pri.is_prime(v)][:12 if q else 40])
+    for nw_extra in (1, 2):
+        add('priIsSGPrime', kind='sgprime', vals=['3', '5', '7', '11', '23', '29', '65537', str(pri.next_prime((1 << (W - 1)) + 1))], n=1 + nw_extra)
     for s, n in chunks(0, 1 << (12 if q else 16), 1 << 9):
         add('priIsPrime small', kind='isprime_range', start=s, count=n)
     if cfg == 'w32':           # two-word numbers: windows through priIsPrime
@@ -1193,6 +1381,7 @@ def param_jobs(tier, cfg):
     J += [dict(cfg=cfg, expand='dstupoints', name=name, quick=q) for name in RD.STD_NAMES]
     J += [dict(cfg=cfg, expand='pfokkeys', name=name) for name in RP.STD_NAMES]
     J += [dict(cfg=cfg, expand='seeds', scheme=scheme, quick=q) for scheme in ('stb99', 'pfok')]
+    J += [dict(cfg=cfg, expand='bigngen', l=l, quick=q) for l in (128, 192, 256)]
     return J
 
 def expand(spec):
@@ -1233,6 +1422,9 @@ def expand(spec):
         for lab, y in (('0', 0), ('1', 1), ('2', 2), ('p-1', p - 1), ('p', p), ('p+1', p + 1), ('e', RP.mont_R(P) % p), ('g', P['g']), ('2^8no-1', (1 << (8 * no)) - 1),
                        ('p with top octet cleared', p & ((1 << (8 * no - 8)) - 1)), ('p+256', p + 256), ('p-256', p - 256)):
             add('pfok keys', kind='pfokkey', name=name, label=lab, y=str(y))
+    elif what == 'bigngen':
+        for cse in bigngen_cases(spec['l'], spec.get('quick')):
+            add('bignParamsGen (alg. 6.1.3 with scripted callbacks)', **cse)
     elif what == 'seeds':
         scheme = spec['scheme']; R_ = RS if scheme == 'stb99' else RP
         seen = set()
@@ -1245,6 +1437,9 @@ def expand(spec):
         for name in R_.STD_NAMES:
             if scheme == 'stb99' and (not spec['quick'] or name in R_.STD_NAMES[:2]):
                 add('generation from seed', kind='gen', scheme=scheme, name=name)
+            if scheme == 'pfok' and name == 'test':          # the standard pfok sets need hours (a safe prime of 1022+ bits)
+                add('generation from seed', kind='gen', scheme=scheme, name=name, on_q=1)
+                add('generation from seed', kind='gen', scheme=scheme, name=name, on_q=0)
     elif what == 'polyprods':
         ln = spec['ln']; l = 8 * ln
         std0 = (1 << l) | int.from_bytes(RB.std_m(ln, 0), 'little')
